@@ -175,7 +175,12 @@ func (p *OIDCProvider) redeemRefreshToken(ctx context.Context, s *sessions.Sessi
 	// If it doesn't it's probably better to retain the old one
 	if newSession.IDToken != "" {
 		s.IDToken = newSession.IDToken
-		s.Email = newSession.Email
+		// Neither the refreshed id_token nor the profileURL may have set an
+		// email: retain the old one rather than blanking it, a session
+		// without email would no longer be subject to the email restrictions
+		if newSession.Email != "" {
+			s.Email = newSession.Email
+		}
 		s.User = newSession.User
 		s.Groups = newSession.Groups
 		s.PreferredUsername = newSession.PreferredUsername
